@@ -112,6 +112,7 @@ static double g_start;
 static char *g_progress;          /* MAP_SHARED page */
 #define PROGRESS_SIZE 16384
 static char g_case[PROGRESS_SIZE];
+static int g_fatal_fd = -1;
 static int g_silent;
 
 #define MAXCOUNTERS 256
@@ -153,6 +154,7 @@ void mc_init(int argc, char **argv, const char *prop)
   if ((v = mc_opt("deadline"))) MC.deadline_s = atof(v);
   MC.only = mc_opt("only");
   MC.outpath = mc_opt("out");
+  if (MC.outpath) { char fp[1200]; snprintf(fp, sizeof(fp), "%s.fatal", MC.outpath); g_fatal_fd = open(fp, O_WRONLY | O_CREAT | O_TRUNC, 0644); }
   g_start = mc_now();
   setvbuf(stdout, NULL, _IONBF, 0);
   if ((v = mc_opt("progress"))) {
@@ -328,15 +330,16 @@ static void abandon(void)
 
 static void fatal_outside_try(const char *what)
 {
-  /* a fault outside any protected block: record it with the case in flight and die */
-  FILE *f = MC.outpath ? fopen(MC.outpath, "w") : stdout;
-  if (f) {
-    char key[600];
-    snprintf(key, sizeof(key), "crash:%s", what);
-    mc_violation(key, "%s", g_case);
-    write_results(f, 0);
-    fflush(f);
-  }
+  /* a fault outside any protected block (or a watchdog expiry): record it with the case in flight and die.
+   * Async-signal-safe on purpose (no malloc, no stdio streams): the interrupted code may hold the allocator lock.
+   * The driver reads <out>.fatal when the regular result file is missing. */
+  static char buf[PROGRESS_SIZE + 1024];
+  int n = snprintf(buf, sizeof(buf), "S\tstates\t%llu\nS\ttransitions\t%llu\nV\t%s%s\t1\t", (unsigned long long)MC.states, (unsigned long long)MC.transitions,
+                   strcmp(what, "hang") ? "crash:" : "", what);
+  for (const char *p = g_case; *p && n < (int)sizeof(buf) - 64; p++) { if (*p == '\n' || *p == '\t' || *p == '\r') buf[n++] = ' '; else buf[n++] = *p; }
+  n += snprintf(buf + n, sizeof(buf) - (size_t)n, "\nE\texhaustive\t0\nD\tdone\n");
+  if (g_fatal_fd >= 0) { ssize_t w = write(g_fatal_fd, buf, (size_t)n); (void)w; }
+  else { ssize_t w = write(2, buf, (size_t)n); (void)w; }
   _exit(3);
 }
 
@@ -344,12 +347,17 @@ static void on_signal(int sig)
 {
   const char *n = sig == SIGSEGV ? "SIGSEGV" : sig == SIGBUS ? "SIGBUS" : sig == SIGFPE ? "SIGFPE" :
                   sig == SIGABRT ? "SIGABRT" : sig == SIGALRM ? "hang" : "SIG?";
+  if (sig == SIGALRM) {
+    /* a watchdog expiry is fatal for the worker: the interrupted code may hold the allocator lock, so
+     * jumping out of it could deadlock the next malloc. The case in flight is recorded and the worker ends;
+     * the driver reports the partition as not exhaustive. */
+    if (g_in_try) fatal_outside_try("hang");
+    return;
+  }
   if (g_in_try) {
-    if (sig == SIGALRM) snprintf(mc_fault, sizeof(mc_fault), "hang");
-    else snprintf(mc_fault, sizeof(mc_fault), "signal:%s", n);
+    snprintf(mc_fault, sizeof(mc_fault), "signal:%s", n);
     abandon();
   }
-  if (sig == SIGALRM) return;
   fatal_outside_try(n);
 }
 
